@@ -94,7 +94,12 @@ Resolve(d, cname, m, t) ==
       ty     == target.type
       isBind == ty = "wl_registry" /\ m.name = "bind"
       isDel  == target.res /\ target.id = 1 /\ target.gen = 0 /\ m.name = "delete_id" /\ Len(m.args) > 0
-      blank  == [cname |-> cname, t |-> t, sent |-> m.sent, target |-> target, name |-> m.name,
+      \* deviation the tool knowingly has: a message whose target object is unknown to the table (the log
+      \* started mid-session, or the id is stale) is recorded and shown, but is not tied to its connection:
+      \* it is shown without the connection's name and matchers see the connection "unknown"
+      blank  == [cname |-> IF target.res THEN cname ELSE <<"u", "n", "k", "n", "o", "w", "n">>,
+                 shownc |-> IF target.res THEN cname ELSE <<>>,
+                 t |-> t, sent |-> m.sent, target |-> target, name |-> m.name,
                  args |-> <<>>, destroyed |-> NoObj, life |-> NoTime]
   IN
   IF isBind /\ ~(BindShapeOk(m.args) /\ BindTypeOk(m.args)) THEN [db |-> d, rec |-> blank, oc |-> "stop"]
